@@ -8,7 +8,7 @@ config-threading harness k and the sample rate.
 from __future__ import annotations
 
 from harness.common import ASSUME, FAIL, PASS, check, tape_harness  # noqa: F401
-from harness.frames import CodeView, FakeFrame, RETURN_OPS, YIELD_OP
+from harness.frames import AT_OP, AT_RAISE, AT_RETURN, AT_YIELD, CodeView, FakeFrame, RETURN_OPS, YIELD_OP
 from vfix import funcs as F
 
 import monkeytype
@@ -85,11 +85,11 @@ def contain_body(t, f_argtype, f_rettype, f_lookup, f_log, f_evil_arg, f_evil_re
             r = tracer(fr, "call", None)
             ok = r is tracer
             if event_script >= 2:
-                fr.f_code.co_code = [YIELD_OP]
+                fr.f_lasti = AT_YIELD
                 ok = ok and tracer(fr, "return", retv) is tracer
                 ok = ok and tracer(fr, "call", None) is tracer
             if event_script >= 1:
-                fr.f_code.co_code = [sorted(RETURN_OPS)[0]]
+                fr.f_lasti = AT_RETURN
                 ok = ok and tracer(fr, "return", retv) is tracer
         except Exception as e:  # noqa: BLE001 - this is the violation being looked for
             return check(False, lambda: f"{type(e).__name__}({e}) escaped CallTracer.__call__ into the traced program "
@@ -310,10 +310,10 @@ def hookfree_body(t, k):
             seed_function(tracer, fr.f_code, F.gen_func)
             tracer(fr, "call", None)
             if pos == "yield":
-                fr.f_code.co_code = [YIELD_OP]
+                fr.f_lasti = AT_YIELD
                 tracer(fr, "return", value)
                 tracer(fr, "call", None)
-            fr.f_code.co_code = [_RET_OP]
+            fr.f_lasti = AT_RETURN
             tracer(fr, "return", value if pos.startswith("return") else None)
             if (logger.logged if log_fails else len(logger.traces)) != 1:
                 return check(False, lambda: f"{kname} at {pos}: no trace logged (type collection failed?)")
